@@ -244,7 +244,10 @@ func (s *scen) Apply(i int) (obs string, viol string) {
 		vsync.PoolMiss = func() bool { vsync.PoolMiss = nil; return true }
 	case okEnter:
 		args := argSets[o.Args]
-		opts := []sentinel.EntryOption{sentinel.WithBatchCount(o.Batch)}
+		opts := []sentinel.EntryOption{}
+		if o.Batch != 1 { // a one-token request names no batch count: the default of the pooled options is checked too
+			opts = append(opts, sentinel.WithBatchCount(o.Batch))
+		}
 		if o.Res == "r2" {
 			opts = append(opts, sentinel.WithTrafficType(base.Inbound))
 		}
